@@ -20,7 +20,7 @@ PROPS = {
         "oracle_engine": {"hsadv": "hs", "token": "token", "resume": "sc", "clientcache": "sc"},
         "trusted": ["authentication sub-protocols are oracles (method m ran with this peer and succeeded / failed); ECDH/HKDF symbolic (symmetric free symbol)"],
         "technique": "Lean 4 theorems over client/server handshake machines with a universally quantified peer script + correspondence against scripted adversarial peers speaking raw CEDAR to the real ClientHandshake/ServerHandshake",
-        "level_text": "client_resume_required_auth / client_explicit_required_auth / server_resume_required_auth (an endpoint whose policy marks authentication REQUIRED resumes only a session that was established WITH authentication), client_required_auth, client_required_enc, client_reported_enc_is_real, client_reported_auth_is_real, client_only_offered_methods_run, server_required_auth, server_required_enc, server_reported_is_real, decided_enc_is_keyed: for every local policy and EVERY peer (all field values, all bitmask replies, any key material, any post-auth ad) — kernel-checked over the model. Tied to the code by the hsadv engine: both roles x 4x4 policies (+integrity) x method shapes x the property's deviation catalogue + random peers; the scripted peer records which exchanges really completed and the harness reads the stream's real encryption state. Engines also send a canary after every successful handshake and re-open every protected frame with an independent codec under the reported key (all later traffic protected), read which method completed from a wire tap (reported method with two usable methods), and compare the reported Encryption with the stream state on both ends, resumed handshakes included. keyed_traffic_protected + client_/server_required_traffic_protected + reported_enc_traffic_protected: the handshake outcome's key IS what the stream is keyed with, and for any later op history without an explicit crypto-off every emitted frame is a seal under that key (bridge from the handshake model to the Stream model).",
+        "level_text": "client_resume_required_auth / client_explicit_required_auth / server_resume_required_auth (an endpoint whose policy marks authentication REQUIRED resumes only a session that was established WITH authentication), client_required_auth, client_required_enc, client_reported_enc_is_real, client_reported_auth_is_real, client_only_offered_methods_run, server_required_auth, server_required_enc, server_reported_is_real, decided_enc_is_keyed, server_percommand_required_auth / _required_enc / _ignores_authcommand (with per-command policies the policy met is the one of the command the negotiation is for, whatever AuthCommand names): for every local policy and EVERY peer (all field values, all bitmask replies, any key material, any post-auth ad) — kernel-checked over the model. Tied to the code by the hsadv engine: both roles x 4x4 policies (+integrity) x method shapes x the property's deviation catalogue + random peers; the scripted peer records which exchanges really completed and the harness reads the stream's real encryption state. Engines also send a canary after every successful handshake and re-open every protected frame with an independent codec under the reported key (all later traffic protected), read which method completed from a wire tap (reported method with two usable methods), and compare the reported Encryption with the stream state on both ends, resumed handshakes included. keyed_traffic_protected + client_/server_required_traffic_protected + reported_enc_traffic_protected: the handshake outcome's key IS what the stream is keyed with, and for any later op history without an explicit crypto-off every emitted frame is a seal under that key (bridge from the handshake model to the Stream model).",
         "level_note": "Resumed handshakes: that REQUIRED authentication is honoured on resumption is proved here over the session-cache model and exercised by the resume and clientcache engines (which therefore also run under this check); key possession and revival are C06. Sub-protocol soundness (did a 'successful' method deserve to succeed) is C11/C18; because C03's theorems assume it, the token engine (C11) also runs under this check and its violations count here. Only CLAIMTOBE/PASSWORD/NONE/TOKEN(no token)/unknown names are exercised on the wire; the theorems cover all methods via the oracle abstraction.",
         "assumptions": ["an authentication sub-protocol reports success only if it completed (C11, C18)"],
     },
